@@ -30,6 +30,7 @@ type genCoin struct {
 	owner    int // party index, -1 unknown
 }
 
+//go:norace
 func (c *genCoin) lock() uint64 {
 	switch {
 	case c.coinbase:
@@ -72,6 +73,7 @@ const (
 	nTxKinds
 )
 
+//go:norace
 func NewGen(w *World) *Gen {
 	g := &Gen{W: w, utxo: map[*BlockRec]map[wire.OutPoint]*genCoin{}, MaxTxs: 3}
 	g.TxKindW = []int{10, 2, 2, 3, 3, 1}
@@ -91,6 +93,8 @@ func NewGen(w *World) *Gen {
 
 // AddWalletParty registers (or refreshes) a wallet as a payee with its issued
 // addresses.
+//
+//go:norace
 func (g *Gen) AddWalletParty(ws *WalletState) {
 	var p *Party
 	for _, q := range g.Parties {
@@ -117,6 +121,7 @@ func (g *Gen) AddWalletParty(ws *WalletState) {
 	}
 }
 
+//go:norace
 func (g *Gen) ownerOf(pk []byte) int {
 	_, holder, _, _, ok := classify(pk)
 	if !ok {
@@ -132,6 +137,7 @@ func (g *Gen) ownerOf(pk []byte) int {
 	return -1
 }
 
+//go:norace
 func (g *Gen) coinFromOut(op wire.OutPoint, out *wire.TxOut, height uint64, cb bool) *genCoin {
 	cls, _, fz, target, _ := classify(out.PkScript)
 	return &genCoin{op: op, value: out.Value, pk: out.PkScript, height: height, coinbase: cb, cls: cls,
@@ -139,6 +145,8 @@ func (g *Gen) coinFromOut(op wire.OutPoint, out *wire.TxOut, height uint64, cb b
 }
 
 // utxoAt returns the unspent set after block b (memoised, copy on extend).
+//
+//go:norace
 func (g *Gen) utxoAt(b *BlockRec) map[wire.OutPoint]*genCoin {
 	if m, ok := g.utxo[b]; ok {
 		return m
@@ -170,6 +178,7 @@ func (g *Gen) utxoAt(b *BlockRec) map[wire.OutPoint]*genCoin {
 	return m
 }
 
+//go:norace
 func sortedCoins(m map[wire.OutPoint]*genCoin) []*genCoin {
 	out := make([]*genCoin, 0, len(m))
 	for _, c := range m {
@@ -184,6 +193,7 @@ func sortedCoins(m map[wire.OutPoint]*genCoin) []*genCoin {
 	return out
 }
 
+//go:norace
 func stdScript(h [32]byte) []byte {
 	s, err := txscript.PayToWitnessScriptHashScript(h[:])
 	if err != nil {
@@ -192,6 +202,7 @@ func stdScript(h [32]byte) []byte {
 	return s
 }
 
+//go:norace
 func stakingScript(h [32]byte, frozen uint64) []byte {
 	// OP_0 <32-byte hash> <8-byte little-endian frozen period>
 	buf := make([]byte, 8)
@@ -203,6 +214,7 @@ func stakingScript(h [32]byte, frozen uint64) []byte {
 	return s
 }
 
+//go:norace
 func bindingScript(h [32]byte, target []byte) []byte {
 	s, err := txscript.PayToBindingScriptHashScript(h[:], target)
 	if err != nil {
@@ -213,6 +225,8 @@ func bindingScript(h [32]byte, target []byte) []byte {
 
 // pickPayee draws a recipient script hash; walletBias percent of draws go to a
 // wallet party when one exists.
+//
+//go:norace
 func (g *Gen) pickPayee(t *Tape, walletBias int) (h [32]byte, party int) {
 	var wallets []int
 	for i, p := range g.Parties {
@@ -229,11 +243,14 @@ func (g *Gen) pickPayee(t *Tape, walletBias int) (h [32]byte, party int) {
 	return p.Hashes[t.Int(len(p.Hashes))], party
 }
 
+//go:norace
 func dummyWitness() wire.TxWitness { return wire.TxWitness{[]byte{0x01}, []byte{0x51}} }
 
 // buildTx draws one transaction valid on top of view at height h. spent marks
 // outpoints already consumed in the block being assembled. It returns nil when
 // the drawn kind cannot be built.
+//
+//go:norace
 func (g *Gen) buildTx(t *Tape, view map[wire.OutPoint]*genCoin, inBlock []*genCoin, spent map[wire.OutPoint]bool, h uint64) *wire.MsgTx {
 	kind := t.Weighted(g.TxKindW)
 	// candidate inputs: unspent, lock satisfied at height h
@@ -414,6 +431,7 @@ func (g *Gen) buildTx(t *Tape, view map[wire.OutPoint]*genCoin, inBlock []*genCo
 	return tx
 }
 
+//go:norace
 func minInt64(a, b int64) int64 {
 	if a < b {
 		return a
@@ -423,6 +441,8 @@ func minInt64(a, b int64) int64 {
 
 // txValidOn reports whether tx can be mined at height h on top of view (plus
 // the coins created earlier in the same block).
+//
+//go:norace
 func (g *Gen) txValidOn(tx *wire.MsgTx, view map[wire.OutPoint]*genCoin, inBlock map[wire.OutPoint]*genCoin, spent map[wire.OutPoint]bool, h uint64) bool {
 	hasBindIn, hasBindOut := false, false
 	for _, in := range tx.TxIn {
@@ -458,6 +478,8 @@ func (g *Gen) txValidOn(tx *wire.MsgTx, view map[wire.OutPoint]*genCoin, inBlock
 
 // NewBlock assembles a block on parent with a coinbase and the given
 // transactions (already validated by the caller).
+//
+//go:norace
 func (g *Gen) NewBlock(t *Tape, parent *BlockRec, txs []*wire.MsgTx) *BlockRec {
 	hdr := g.W.Params.GenesisBlock.Header
 	hdr.Height = parent.Height + 1
@@ -505,6 +527,8 @@ func (g *Gen) NewBlock(t *Tape, parent *BlockRec, txs []*wire.MsgTx) *BlockRec {
 // GenBlock draws a block on top of parent. carry lists transactions that
 // should be considered for inclusion first (mempool / rolled-back ones), each
 // taken with probability carryPct when still valid.
+//
+//go:norace
 func (g *Gen) GenBlock(t *Tape, parent *BlockRec, carry []*wire.MsgTx, carryPct int) *BlockRec {
 	h := parent.Height + 1
 	view := g.utxoAt(parent)
@@ -549,6 +573,8 @@ func (g *Gen) GenBlock(t *Tape, parent *BlockRec, carry []*wire.MsgTx, carryPct 
 }
 
 // confirmedOnBranch reports whether tx hash is mined on the chain ending at b.
+//
+//go:norace
 func (g *Gen) confirmedOnBranch(b *BlockRec, h wire.Hash) (uint64, bool) {
 	for x := b; x != nil; x = x.Parent {
 		for _, th := range x.TxHashes {
@@ -563,6 +589,8 @@ func (g *Gen) confirmedOnBranch(b *BlockRec, h wire.Hash) (uint64, bool) {
 // GenLooseTx draws a transaction valid for the next block on the best tip
 // without mining it (an unconfirmed transaction). Inputs may also be outputs
 // of transactions already in the mempool list.
+//
+//go:norace
 func (g *Gen) GenLooseTx(t *Tape) *wire.MsgTx {
 	tip := g.W.Node.Tip()
 	view := g.utxoAt(tip)
@@ -591,6 +619,8 @@ func (g *Gen) GenLooseTx(t *Tape) *wire.MsgTx {
 }
 
 // addrString renders the standard address of a script hash.
+//
+//go:norace
 func (g *Gen) addrString(h [32]byte) string {
 	a, err := massutil.NewAddressWitnessScriptHash(h[:], g.W.Params)
 	if err != nil {
